@@ -193,6 +193,26 @@ class Ctx:
         if rs == 'sat' and want_model:
             m = s.model()
             model = {name: _model_value(m, zv) for name, (zv, kind) in self.inputs.items()}
+            # the trig axioms tie an angle to its sin/cos atoms only loosely: when the model assigns sin/cos, replay the
+            # angle that actually has those values (atan2), so that the counterexample reproduces on the real code
+            for name, (zv, kind) in self.inputs.items():
+                if kind != 'angle':
+                    continue
+                sa, ca = S.ATOM_BY_NAME.get('sin{%s}' % name), S.ATOM_BY_NAME.get('cos{%s}' % name)
+                if sa is None or ca is None or not (sa.id in atoms or ca.id in atoms):
+                    continue
+                try:
+                    import math
+                    from fractions import Fraction
+                    fv = lambda q: float(Fraction(q)) if '/' in q else float(q)
+                    sv, cv = fv(_model_value(m, sa.z)), fv(_model_value(m, ca.z))
+                    th0 = fv(model[name])
+                    th = math.atan2(sv, cv)
+                    # same branch as the model's angle when possible
+                    k = round((th0 - th) / (2 * math.pi))
+                    model[name] = repr(th + 2 * math.pi * k)
+                except Exception:
+                    pass
             if ex.debug_full_model:
                 model['__atoms__'] = {S.ATOMS[i].name: _model_value(m, S.ATOMS[i].z) for i in sorted(atoms)}
         smt = None
@@ -218,6 +238,17 @@ class Ctx:
             if len(self.prefix) >= self.ex.max_decisions:
                 self.res.outcome = 'cut'
                 raise PathEnd()
+            if self.ex.blind_branches:
+                take = True
+                self.new_prefixes.append(self.prefix + [False])
+                self.ex.unknown_branches += 1
+                self.prefix.append(take)
+                self.decided[key] = take
+                self.conds.append(sb.z)
+                self.conds_at.append(frozenset(sb.atoms))
+                self.cond_atoms |= sb.atoms
+                self.res.n_decisions += 1
+                return take
             # light check first: only the constraints over the condition's own atoms (a subset of the constraints
             # being unsatisfiable settles infeasibility even when the full query would time out)
             lt = self.light_check(sb.z, sb.atoms)
@@ -352,8 +383,12 @@ S._DIV_HOOK[0] = _div_hook
 
 class Explorer:
     def __init__(self, max_paths=2000, max_decisions=60, branch_timeout_ms=5000, prove_timeout_ms=20000,
-                 time_budget_s=600, keep_smt=True, tactic=None):
+                 time_budget_s=600, keep_smt=True, tactic=None, blind_branches=False):
         self.max_paths = max_paths
+        # blind_branches: fork at every symbolic decision WITHOUT asking the solver whether both sides are feasible (for
+        # decisions whose feasibility queries hang in nlsat).  Sound for proofs (an infeasible path only adds vacuous
+        # obligations; counterexamples must satisfy the path condition and are replayed anyway).
+        self.blind_branches = blind_branches
         self.max_decisions = max_decisions
         self.branch_timeout_ms = branch_timeout_ms
         self.prove_timeout_ms = prove_timeout_ms
